@@ -107,6 +107,7 @@ type Env struct {
 	Rev    func([]int) []int
 	Tup    func(...interface{}) interface{}
 	VarI   func(...interface{}) interface{}
+	Add3   func(int, int, int) int
 
 	lg *Log
 }
@@ -114,6 +115,12 @@ type Env struct {
 func (e Env) Twice(x int) int {
 	e.lg.add("Twice", x)
 	return 2 * x
+}
+
+// MAdd: a method fit for an operator table (C17, OpTable.tla).
+func (e Env) MAdd(a, b int) int {
+	e.lg.add("MAdd", a, b)
+	return a + b + 1000
 }
 
 // PtrM is only in the method set of *Env.
@@ -160,6 +167,7 @@ func NewEnv(lg *Log) *Env {
 	// Tup returns its variadic slice itself (a callee may retain its arguments)
 	e.Tup = func(xs ...interface{}) interface{} { lg.add("Tup", xs...); return xs }
 	// VarI depends on the environment value it is a member of (a per-request closure)
+	e.Add3 = func(a, b, c int) int { lg.add("Add3", a, b, c); return a + b + c }
 	e.VarI = func(xs ...interface{}) interface{} { lg.add("VarI", xs...); return e.I + len(xs) }
 	return e
 }
